@@ -91,7 +91,7 @@ theorem writers_whitespaceState : Facts.writers_whitespaceState = ["Conversation
 /-! package level state (C20): nothing outside init writes a package-level variable; these are the
     package-level slices used as append prefixes (the harness checks len = cap for them at run time) -/
 theorem pkgVarWritesOutsideInit : Facts.pkgVarWritesOutsideInit = [] := by decide
-theorem pkgSlicesUsedAsAppendPrefix : Facts.pkgSlicesUsedAsAppendPrefix = ["defaultResentPrefix", "errorMarker", "msgMarker"] := by decide
+theorem pkgSlicesUsedAsAppendPrefix : Facts.pkgSlicesUsedAsAppendPrefix = ["errorMarker", "msgMarker"] := by decide
 
 /-! transition skeletons of the AKE and SMP automata -/
 theorem transitions_authState : Facts.transitions_authState = [("authStateAwaitingDHKey.receiveDHCommitMessage", ["authStateAwaitingRevealSig{}", "authStateNone{}.receiveDHCommitMessage()", "s"]),
